@@ -110,7 +110,8 @@ def translate_function(fn):
 
 
 def option_key(options):
-    return ','.join(sorted(k for k, v in options.items() if v)) or 'smiV2'
+    # order-preserving: the class synthesis walks the keyword arguments in the order given
+    return ','.join(k for k, v in options.items() if v) or 'smiV2'
 
 
 def build(options):
